@@ -11,11 +11,17 @@ from .. import gen as G
 from ..corr import Case, drive
 from ..lang import N, P, Some
 from .common import generic_replay, merge_reports, run_families, std_case
+from .hist import overlap_violation, replay_special
 
 ASSUMPTIONS = [
     "user coercers/processors/predicates are total functions (env fields in the theorems)",
     "stdlib parsers behind default coercers are oracles (see C16)",
 ]
+from ..facts import effects as _effects  # noqa: E402
+_FX = _effects.obligation("C02")
+EXTRA_PROOF_FILES = [_FX[0]]
+TRUSTED_EXTRA = [_FX[1]]
+regenerate_facts = _FX[2]
 
 
 def cases(tier: str, rng: random.Random) -> List[Case]:
@@ -205,9 +211,47 @@ def nontrivial(c: Case) -> bool:
     return c.v[0] != "Scalar" or bool(c.v[2] or c.v[3] or c.v[4] or c.v[5]) or c.obs[0] == "OValid"
 
 
+def overlaps(tier: str, rng: random.Random):
+    """Every failing predicate is reported to the call it failed for, also while other calls on the
+    same validator object are suspended in their own async predicates."""
+    import itertools
+    fam = [
+        (("Scalar", ("KInt",), None, [], [("PMin", G.I(1), False)], [("APred", N(2)), ("APred", N(3))]),
+         [G.I(5), G.I(0), G.I(4), G.I(-3)]),
+        (("Scalar", ("KStr",), None, [("Strip",)], [("PMaxLength", 3)], [("APred", N(2)), ("APred", N(3))]),
+         [G.S(" a "), G.S("abcd"), G.S("ab"), G.S("")]),
+        (("Scalar", ("KDecimal",), Some(("CoDecimal",)), [], [], [("APred", N(1)), ("APred", N(0))]),
+         [G.S("1.5"), G.D1, G.I(3)]),
+    ]
+    bad, n_sets, n_sched = [], 0, 0
+    for vt, alpha in fam:
+        for k in (2, 3):
+            for xts in itertools.product(alpha, repeat=k):
+                if k == 3 and rng.random() < (0.8 if tier == "quick" else 0.0):
+                    continue
+                n_sets += 1
+                v, c = overlap_violation("C02", vt, [], list(xts), 300 if tier == "quick" else 20000)
+                n_sched += c
+                if v and not bad:
+                    bad.append(v)
+    return bad, n_sets, n_sched
+
+
 def run(tier: str, rng: random.Random, proof_ok: bool) -> dict:
-    return run_families("C02", cases(tier, rng), rng, oracle, nontrivial)
+    rep = run_families("C02", cases(tier, rng), rng, oracle, nontrivial)
+    bad, n_sets, n_sched = overlaps(tier, rng)
+    rep["violations"] += bad
+    rep["coverage"]["overlapping_call_sets"] = n_sets
+    rep["coverage"]["schedules"] = n_sched
+    return rep
 
 
 def replay(path: str) -> int:
-    return generic_replay(path, oracle)
+    import json
+    rc = json.load(open(path)).get("replay_case")
+    r = replay_special(rc, "C02") if isinstance(rc, dict) else None
+    return r if r is not None else generic_replay(path, oracle)
+
+
+from ..facts import attach as _attach, typechecks as _typechecks  # noqa: E402
+_attach(globals(), _typechecks.obligation("C02"))
